@@ -87,6 +87,9 @@ Proof. exact law_slice_slice_range. Qed.
 Theorem C16_slice_all : forall d t, ixok d = true -> tbl d = Some t ->
   tbl (DSlice (seq 0 (length t)) d) = Some t.
 Proof. exact law_slice_all. Qed.
+Theorem C16_unbatch_concat : forall l, tbl (DUnbatch (DConcat l)) = tbl (DConcat (map DUnbatch l)).
+Proof. exact law_unbatch_concat. Qed.
+Print Assumptions C16_unbatch_concat.
 Print Assumptions C16_filter_filter.
 Print Assumptions C16_filter_concat.
 Print Assumptions C16_concat_single.
